@@ -1,15 +1,94 @@
-import Sentinel.Model.Entry
-/-! # C01 (first cut: witness only; the refinement theorems follow) -/
+import Sentinel.Lemmas.Entry
+/-!
+# C01 — Entry/Exit accounting is conserved and correctly attributed
+(property theorems only; the simulation lemmas live in `Sentinel/Lemmas/Entry.lean`)
+
+Reading guide.  `ops : List TOp` is a history of time-stamped ops `entry | trace | exit` in
+chronological order; `Mono t0 ops` says the clock readings never decrease from `t0 > 0` on.
+`run fix t0 ops` is the code-shaped model of `Sentinel/Model/Entry.lean` (the one the driver executes
+against `api.Entry / api.TraceError / SentinelEntry.Exit`): slot chain phases with recover, the real
+prepare slot, `stat.Slot`'s callbacks on leap arrays (20 × 500 ms) and gauges, one context per entry,
+`sync.Once` + `exited`.  `fix = false` is the code as it is, `fix = true` accounts a recovered panic as
+the pass it is (what the property demands).  The `led…` functions are the ledger recomputed from the
+history alone (no arrays, no gauges, no chain execution).
+-/
 namespace Sentinel.C01
 open Sentinel.Entry Sentinel.LA
+
+/-- clock readings never decrease (chronological order) -/
+def Mono (t0 : Nat) (ops : List TOp) : Prop := MonoR t0 ops.reverse
+
+/-! ## (1) the model's observables are the ledger's, for every history -/
+
+/-- **window sums** (`GetSum` of the default 1 s metric, of any `GenerateReadStat` view up to 10 s, and
+through the window payload also min RT and peak concurrency): at any read time not before the last op,
+for the inbound node and every resource node, existing or not. -/
+theorem window_refines_ledger (fix : Bool) (t0 : Nat) (ops : List TOp) (h0 : 0 < t0) (hm : Mono t0 ops)
+    (k : Key) (Iv now : Nat) (hnow : lastT t0 ops.reverse ≤ now) (hIv : Iv ≤ 10000) :
+    obsWindow (run fix t0 ops) k Iv now = ledWindow fix ops.reverse k Iv now := by
+  have sim := sim_runR fix t0 ops.reverse h0 hm
+  unfold obsWindow ledWindow run
+  cases k with
+  | none =>
+    simp only [nodeOf, Option.map]
+    rw [nodeOk_window sim.nodes.inb now Iv hnow (by simpa [sampleCountTotal, bucketLen] using hIv)]
+    rfl
+  | some r =>
+    simp only [nodeOf]
+    cases hf : findN (runR fix t0 ops.reverse).nodes r with
+    | none => simp [sim.nodes.none_ r hf]
+    | some n =>
+      have := sim.nodes.some_ r n hf
+      simp only [Option.map, this.1, if_true]
+      rw [nodeOk_window this.2 now Iv hnow (by simpa [sampleCountTotal, bucketLen] using hIv)]
+
+/-- **the gauge** (`CurrentConcurrency()`) -/
+theorem conc_refines_ledger (fix : Bool) (t0 : Nat) (ops : List TOp) (h0 : 0 < t0) (hm : Mono t0 ops) (k : Key) :
+    obsConc (run fix t0 ops) k = ledConc fix ops.reverse k := by
+  have sim := sim_runR fix t0 ops.reverse h0 hm
+  unfold obsConc ledConc run
+  cases k with
+  | none => simp only [nodeOf, Option.map]; rw [sim.nodes.inb.2.2.1]; rfl
+  | some r =>
+    simp only [nodeOf]
+    cases hf : findN (runR fix t0 ops.reverse).nodes r with
+    | none => simp [sim.nodes.none_ r hf]
+    | some n =>
+      have := sim.nodes.some_ r n hf
+      simp only [Option.map, this.1, if_true]
+      rw [this.2.2.2.1]
+
+/-- **`entry.Context().Err()` / `.Input.Args` of live entries, and the outcome of `api.Entry`** -/
+theorem ctx_refines_ledger (fix : Bool) (t0 : Nat) (ops : List TOp) (h0 : 0 < t0) (hm : Mono t0 ops) (id : Nat) :
+    obsCtx (run fix t0 ops) id = ledCtx ops.reverse id ∧
+    obsEntered (run fix t0 ops) id = ledEntered ops.reverse id := by
+  have sim := sim_runR fix t0 ops.reverse h0 hm
+  unfold obsCtx ledCtx obsEntered ledEntered run
+  rw [sim.ents id]
+  cases info ops.reverse id with
+  | none => exact ⟨rfl, rfl⟩
+  | some i => simp [ctxOf]
+
+/-- **recording statistic slots** are told exactly what the ledger says -/
+theorem reclog_refines_ledger (fix : Bool) (t0 : Nat) (ops : List TOp) (h0 : 0 < t0) (hm : Mono t0 ops) :
+    (run fix t0 ops).log = recLog fix ops.reverse :=
+  (sim_runR fix t0 ops.reverse h0 hm).log
+
+/-! ## known finding `panic-pass-gauge` -/
 
 def panicEntry : EntryOp :=
   { id := 1, res := "h", inbound := false, batch := 1, args := ["u:x"], chain := { pre := [.node], rules := [.panic], std := true } }
 
-/-- `panic-pass-gauge`: a rule check that panics is recovered, the request is passed, nothing is recorded at entry,
-    and the exit records a completion and decrements the gauge: concurrency −1 with nothing in flight -/
+/-- a rule check that panics is recovered, the request is passed, nothing is recorded at entry, and the exit
+    records a completion and decrements the gauge: pass 0, complete 1, concurrency −1 with nothing in flight;
+    the ledger the property demands says pass 1, complete 1, concurrency 0 -/
 theorem panic_pass_gauge_witness :
-    obsConc (run false 1000 [(1000, .entry panicEntry), (1000, .exit 1 none)]) (some "h") = some (-1) := by
+    let ops : List TOp := [(1000, .entry panicEntry), (1000, .exit 1 none)]
+    obsConc (run false 1000 ops) (some "h") = some (-1) ∧
+    (obsWindow (run false 1000 ops) (some "h") 1000 1000).map (·.pass) = some 0 ∧
+    (obsWindow (run false 1000 ops) (some "h") 1000 1000).map (·.complete) = some 1 ∧
+    ledConc true ops.reverse (some "h") = some 0 ∧
+    (ledWindow true ops.reverse (some "h") 1000 1000).map (·.pass) = some 1 := by
   decide
 
 end Sentinel.C01
